@@ -27,6 +27,7 @@ var stall struct {
 	writers []func()
 	n       int
 	verdict *[2]string
+	armed   *[2]string
 }
 
 // StallLimit is the real time one scenario may take.
@@ -48,6 +49,21 @@ func SetStallVerdict(sig, desc string) {
 	stall.mu.Unlock()
 }
 
+// ArmStallVerdict: a driver about to do the one thing whose failure mode is "the client spins / blocks and the scenario never
+// ends" (end a context and expect the call back, close a client and expect everything to stop) says so; DisarmStallVerdict
+// when it got past that point. An armed verdict takes precedence over SetStallVerdict's.
+func ArmStallVerdict(sig, desc string) {
+	stall.mu.Lock()
+	stall.armed = &[2]string{sig, desc}
+	stall.mu.Unlock()
+}
+
+func DisarmStallVerdict() {
+	stall.mu.Lock()
+	stall.armed = nil
+	stall.mu.Unlock()
+}
+
 // OnStall registers a function that saves a driver's partial report.
 func OnStall(f func()) {
 	stall.mu.Lock()
@@ -59,6 +75,7 @@ func OnStall(f func()) {
 func Bubble(t *testing.T, f func(t *testing.T)) {
 	stall.mu.Lock()
 	stall.n++
+	stall.armed = nil
 	n := stall.n
 	stall.timer = time.AfterFunc(StallLimit, func() { stalled(n) })
 	tm := stall.timer
@@ -72,6 +89,9 @@ func stalled(n int) {
 	cur := stall.n
 	ws := append([]func(){}, stall.writers...)
 	verdict := stall.verdict
+	if stall.armed != nil {
+		verdict = stall.armed
+	}
 	stall.mu.Unlock()
 	if cur != n {
 		return // that scenario ended in the meantime
